@@ -210,8 +210,10 @@ func sizeClass(n int64) string {
 		return "1"
 	case n < 100:
 		return "small"
-	case n < 1<<20:
+	case n <= 256<<10:
 		return "medium"
+	case n < 1<<20:
+		return "long"
 	}
 	return "huge"
 }
@@ -354,7 +356,8 @@ func laneE2E(c *ev.Ctx) {
 	}
 	r := c.Rng("e2e")
 	objs := map[int64][]byte{}
-	for _, sz := range []int64{0, 1, 2, 100, 70000} {
+	// 790753 = 3 x 256 KiB + 4321, 262145 = 256 KiB + 1: bodies that span several of any server-side copy buffer
+	for _, sz := range []int64{0, 1, 2, 100, 70000, 262145, 790753} {
 		b := make([]byte, sz)
 		r.Read(b)
 		objs[sz] = b
@@ -364,6 +367,7 @@ func laneE2E(c *ev.Ctx) {
 		}
 	}
 	sizes := []int64{0, 1, 2, 100, 70000}
+	bigSizes := []int64{262145, 790753}
 	n := c.Pick(500, 40000)
 	one := func(id string, size int64, h string, head bool) {
 		obj := objs[size]
@@ -377,6 +381,11 @@ func laneE2E(c *ev.Ctx) {
 			resp = cl.GetObject("rng", key, "Range", h)
 		}
 		c.Eval(1)
+		if resp.Err != nil && strings.HasPrefix(resp.Err.Error(), "read body") && env.GWs[0].Alive() {
+			// status line and headers arrived, the body ended before Content-Length bytes
+			c.Violation("e2e:body-shorter-than-content-length:"+sizeClass(size), id, map[string]any{"method": method, "size": size, "range": h, "answer": resp.Raw, "error": resp.Err.Error()})
+			return
+		}
 		if resp.Err != nil {
 			if _, cr := env.Dead(); cr != nil {
 				c.Violation("e2e:gateway-died", id, map[string]any{"range": h, "crash": cr.Message, "frame": cr.TopFrame})
@@ -451,8 +460,20 @@ func laneE2E(c *ev.Ctx) {
 			}
 		}
 	}
+	// long bodies: a fixed set of ranges per big object (every run), plus one in ten of the generated cases
+	for _, s := range bigSizes {
+		for i, h := range []string{"", "bytes=0-", "bytes=1-", fmt.Sprintf("bytes=1-%d", s-2), fmt.Sprintf("bytes=%d-", s-262144-7), "bytes=0-262143", "bytes=0-262144", "bytes=5-524292", fmt.Sprintf("bytes=%d-%d", s/2, s+100), "bytes=-300000", "bytes=100000-400000"} {
+			id := fmt.Sprintf("e2e/big/%d/%d", s, i)
+			if c.Want(id) {
+				one(id, s, h, false)
+			}
+		}
+	}
 	for i := 0; i < n; i++ {
 		size := sizes[r.Intn(len(sizes))]
+		if r.Intn(10) == 0 {
+			size = bigSizes[r.Intn(len(bigSizes))]
+		}
 		h := genHeader(r, size)
 		id := fmt.Sprintf("e2e/gen/%d", i)
 		if !c.Want(id) {
